@@ -137,6 +137,9 @@ def run(ctx):
             readers.check_reader(ctx, P, funs["read_fun"], kind, "box", slots)
             n_rd += 1
     ctx.floor("box readers behind the point query", n_rd, 3)
+    # value i of a multi-field query is the i-th selected field only if the stream hands the readers the requested
+    # selector itself (rule of C01 / C15)
+    ctx.attempt(readers.selector_identity, ctx, P)
     ctx.assume("spline evaluation of map_coordinates at an exact integer index returns the sample (not decided)")
     ctx.assume("the between-boxes case (CASE 2) is decided only for its index formula and level choice")
     return ("Static: the point -> index conversion as a rational-function identity (with the domain origin), level and "
